@@ -5,8 +5,10 @@ package c05
 import (
 	"encoding/json"
 	"fmt"
+	"os"
 	"path/filepath"
 	"sort"
+	"strconv"
 	"strings"
 	"time"
 
@@ -31,11 +33,46 @@ type Case struct {
 // knownRules maps a known-finding key to the probe features that, when all
 // present, make the generator drop the probe. Keys that switch a part of the
 // type hierarchy off are listed in modelSwitches.
-var knownRules = map[string][][]string{}
+var knownRules = map[string][][]string{
+	"mexpr-stored":               {{"form:method-expr", "mexpr:stored"}},
+	"mexpr-ptrtype-value-method": {{"form:method-expr", "mexpr:ptr-type", "recv:value"}},
+	"mexpr-promoted":             {{"form:method-expr", "emb:value"}, {"form:method-expr", "emb:pointer"}},
+	"mexpr-via-interface":        {{"form:method-expr", "emb:iface"}},
+	"assert-fail-to-iface-no-panic": {
+		{"assert:fail", "assert:one-result", "assert:to-user-iface", "!assert:nil-source"},
+		{"assert:fail", "assert:one-result", "assert:to-host-iface", "!assert:nil-source"},
+		{"assert:fail", "assert:one-result", "assert:to-anon-iface", "!assert:nil-source"}},
+	"assert-nil-source-to-iface-commaok": {
+		{"assert:nil-source", "assert:two-result", "assert:to-user-iface"},
+		{"assert:nil-source", "assert:two-result", "assert:to-host-iface"},
+		{"assert:nil-source", "assert:two-result", "assert:to-anon-iface"}},
+	"assert-empty-to-source-iface": {
+		{"form:assertion", "assert:from-empty", "assert:to-user-iface", "!assert:nil-source"},
+		{"form:assertion", "assert:from-empty", "assert:to-anon-iface", "!assert:nil-source"},
+		{"iface:any-assert", "iface:user"}, {"iface:any-assert", "iface:anon"}},
+	"nil-pointer-in-host-iface-becomes-nil": {{"iface:nil-ptr-in-iface", "iface:host"}},
+	"fmt-concrete-error-not-invoked":        {{"host:println", "name:Error"}, {"host:sprintf", "name:Error"}, {"host:errorf-w"}},
+	"fmt-error-and-stringer-precedence": {{"host:println", "host:error-and-stringer"}, {"host:sprintf", "host:error-and-stringer"},
+		{"host:stringer-var", "host:error-and-stringer"}},
+	"errors-unwrap-not-visible":                 {{"host:errors-unwrap"}, {"host:errors-is"}},
+	"errors-as-interpreted-target":              {{"host:errors-as"}},
+	"fprintf-writer-also-stringer":              {{"host:fprintf", "host:also-String"}},
+	"methodset-ptr-method-via-embedded-pointer": {{"assert:ptr-method-via-embedded-pointer"}},
+	"assert-value-implements-ptr-methods":       {{"dyn-value-ptr-method"}},
+	"promotion-depth-first":                     {{"dfs-mismatch"}},
+	"methodset-flat-merge-signature":            {{"altsig-mixed"}},
+	"ambiguous-promoted-method-in-method-set":   {{"ambiguous-method"}},
+	"assert-empty-to-host-iface-indirect-method": {{"form:assertion", "assert:from-empty", "assert:to-host-iface", "dyn-indirect-method"},
+		{"iface:any-assert", "iface:host", "dyn-indirect-method"}},
+	"typeswitch-empty-nobind-unwrapped-value": {{"sw:from-empty", "sw:nobind"}},
+	"typeswitch-interface-case":               {{"sw:case-iface"}, {"sw:case-host-iface"}},
+	"typeswitch-nil-case-nonempty-iface":      {{"sw:from-iface", "sw:nil-case", "sw:nil-value"}},
+}
 
 // modelSwitches are known-finding keys that turn off a feature of the
 // generated hierarchy or of a probe variant directly (gen.off).
-var modelSwitches = []string{"altsig", "embedded-iface", "inner-call", "nil-embedded-pointer", "nil-receiver",
+var modelSwitches = []string{"altsig", "promoted-through-embedded-iface", "promotion-depth-first", "mv-value-receiver-bound-late",
+	"iface-holds-value-aliases-variable", "inner-call", "nil-embedded-pointer", "nil-receiver",
 	"nil-interface-call", "nil-pointer-in-interface", "assert-nil-source", "typeswitch-default-not-last"}
 
 func blockedBy(p *probe, off map[string]bool) string {
@@ -299,22 +336,58 @@ func run(ctx *vf.Ctx) {
 	if discards*50 > ctx.Cases && ctx.Cases >= 50 {
 		ctx.Inconclusive("%d of %d cases discarded (native side)", discards, ctx.Cases)
 	}
-	// generator self-check: every cell of the stated distribution is hit
-	if ctx.Cases >= 30 && !ctx.Survey {
-		var empty []string
-		for _, r := range gridRecv {
-			for _, e := range gridEmb {
-				for _, f := range forms {
-					c := r + "/" + e + "/" + f
-					if generated[c] == 0 && !cellExcluded(c, off) {
-						empty = append(empty, c)
+	// generator self-check: every cell of the stated distribution is hit.
+	// Large shards check themselves; in small runs (quick tier) shard 0
+	// regenerates the programs of all shards (generation only) and checks the
+	// distribution of the whole run.
+	if !ctx.Survey {
+		switch {
+		case ctx.Cases >= 200:
+			selfCheck(ctx, generated, off, fmt.Sprintf("shard %d", ctx.Shard))
+		case ctx.Shard == 0:
+			total := ctx.Check.Cases[ctx.Tier]
+			if v := os.Getenv("VERIF_CASES"); v != "" {
+				if n, err := strconv.Atoi(v); err == nil {
+					total = n
+				}
+			}
+			if total >= 100 {
+				all := map[string]int{}
+				for i := 0; i < ctx.NShards; i++ {
+					cases := total / ctx.NShards
+					if i < total%ctx.NShards {
+						cases++
 					}
+					tmp := vf.NewCtx(ctx.Check, ctx.Tier, ctx.Seed, i, ctx.NShards, cases, ctx.Scratch)
+					tmp.RapidCollect("gen", 0, cases, func(t *rapid.T) {
+						pr, _ := generate(t, off)
+						for _, p := range pr.Probes {
+							for _, c := range p.Classes {
+								all[c]++
+							}
+						}
+					})
+				}
+				selfCheck(ctx, all, off, "the whole run")
+			}
+		}
+	}
+}
+
+func selfCheck(ctx *vf.Ctx, generated map[string]int, off map[string]bool, where string) {
+	var empty []string
+	for _, r := range gridRecv {
+		for _, e := range gridEmb {
+			for _, f := range forms {
+				c := r + "/" + e + "/" + f
+				if generated[c] == 0 && !cellExcluded(c, off) {
+					empty = append(empty, c)
 				}
 			}
 		}
-		if len(empty) > 0 {
-			ctx.Inconclusive("generator self-check: classes never generated in shard %d: %s", ctx.Shard, strings.Join(empty, ", "))
-		}
+	}
+	if len(empty) > 0 {
+		ctx.Inconclusive("generator self-check: classes never generated in %s: %s", where, strings.Join(empty, ", "))
 	}
 }
 
@@ -376,7 +449,7 @@ func init() {
 	vf.Register(&vf.Check{
 		ID:    "C05",
 		Level: "exploration",
-		Rule: "case = one program drawn by the check's own generator: 3-6 struct types of unique shape, embedding depth <= 3 by value and by pointer, value- and pointer-receiver methods over a pool of 12 method names (promoted, shadowed and ambiguous ones arise), 2-4 interfaces with overlapping method sets (also embedded in structs), methods print and mutate receiver state; 8-14 independent probes per program cross a (type, method) pair with a call form: direct (addressable, non-addressable, through pointer, explicit path, nil receiver), method value, method expression, call through interface (user, host, anonymous; value or pointer held; nil), type assertion (concrete/interface, one/two results, failing ones recovered), type switch (binding, multi-type, nil, default), host calls (fmt, errors, sort, io, bufio) on generated types implementing error, Stringer, sort.Interface, io.Reader, io.Writer; type-checked with go/types, built natively; oracle = stdout bytes and ending of the native binary; non-trivial = the program holds >= 1 call resolved through an embedded field and made through an interface or a method value, or a host call that must invoke an interpreted method; distinct by source text; classes = receiver kind x embedding kind x call form, every cell must be generated in every shard",
+		Rule:  "case = one program drawn by the check's own generator: 3-6 struct types of unique shape, embedding depth <= 3 by value and by pointer, value- and pointer-receiver methods over a pool of 12 method names (promoted, shadowed and ambiguous ones arise), 2-4 interfaces with overlapping method sets (also embedded in structs), methods print and mutate receiver state; 8-14 independent probes per program cross a (type, method) pair with a call form: direct (addressable, non-addressable, through pointer, explicit path, nil receiver), method value, method expression, call through interface (user, host, anonymous; value or pointer held; nil), type assertion (concrete/interface, one/two results, failing ones recovered), type switch (binding, multi-type, nil, default), host calls (fmt, errors, sort, io, bufio) on generated types implementing error, Stringer, sort.Interface, io.Reader, io.Writer; type-checked with go/types, built natively; oracle = stdout bytes and ending of the native binary; non-trivial = the program holds >= 1 call resolved through an embedded field and made through an interface or a method value, or a host call that must invoke an interpreted method; distinct by source text; classes = receiver kind (value/pointer) x embedding kind (none/value/pointer) x call form (direct/method-value/method-expr/interface/assertion/type-switch/host); a cell that is never generated over a quick run (or in a shard of >= 200 cases) and that no known-finding switch removes makes the run inconclusive",
 		Assumptions: []string{
 			"the installed Go toolchain (go1.23, language level go1.22) is the reference",
 			"programs do not print pointers, %T, %#v, %+v, nor structs through reflection; struct shapes are unique (documented reflect limitation)",
